@@ -255,6 +255,7 @@ TABLED_MOVERS = {
     "grow": "in-place grow of the newest block (aligner over the block's own end)",
     "reset": "chunk reset (scope replay / Bump::reset)",
     "reset_within_chunk": "checkpoint restore",
+    "reset_to": "checkpoint restore: re-alignment of the restored position for the restoring allocator's MIN_ALIGN",
     "generic_alloc_try_with": "Ok-shrink / Err-rewind of alloc_try_with",
     "generic_alloc_try_with_mut": "commit / Err-rewind of alloc_try_with_mut",
     "allocate_prepared": "prepared commit",
